@@ -31,15 +31,29 @@
 
 namespace { struct Synth { int p; int q; float r; }; }
 #define rObject Synth
-static const rtosc::Ports g_ports = {
+// two variants of the application: /q with a range that crosses zero, and with a wholly negative range (where any
+// rounding away from the true value at the upper end leaves the range)
+static const rtosc::Ports g_ports_a = {
     rParamI(p, rLinear(0, 127), "int 0..127"),
     rParamI(q, rLinear(-10, 10), "int -10..10"),
     rParamF(r, rLinear(-1, 1), "float -1..1"),
 };
+static const rtosc::Ports g_ports_b = {
+    rParamI(p, rLinear(0, 127), "int 0..127"),
+    rParamI(q, rLinear(-100, -10), "int -100..-10"),
+    rParamF(r, rLinear(-1, 1), "float -1..1"),
+};
 #undef rObject
+static const rtosc::Ports *g_portsp = &g_ports_b;
+#define g_ports (*g_portsp)
 
 struct PInfo { const char *path; char type; double mn, mx; const char *cls; };
-static const PInfo PORT[3] = {{"/p", 'i', 0, 127, "int-0-127"}, {"/q", 'i', -10, 10, "int-signed"}, {"/r", 'f', -1, 1, "float"}};
+static PInfo PORT[3] = {{"/p", 'i', 0, 127, "int-0-127"}, {"/q", 'i', -100, -10, "int-negative"}, {"/r", 'f', -1, 1, "float"}};
+static void select_variant(char v)
+{
+    if(v == 'a') { g_portsp = &g_ports_a; PORT[1] = PInfo{"/q", 'i', -10, 10, "int-signed"}; }
+    else { g_portsp = &g_ports_b; PORT[1] = PInfo{"/q", 'i', -100, -10, "int-negative"}; }
+}
 static const int IDS[3] = {1, 2, 3};
 static const int VEXP[2] = {0, 127};
 static const int VSWEEP[5] = {0, 1, 64, 126, 127};
@@ -467,12 +481,15 @@ int main(int argc, char **argv)
 {
     vp::init(argc, argv, "C20");
     const bool T = vp::thorough();
+    std::string variants = T ? "ba" : "b";
+    for(char variant : variants) {
+    select_variant(variant);
     bfs::Engine<Sys> E;
     E.max_depth = T ? 12 : 8;
     g_naddr = 3;
     if(const char *d = getenv("C20_DEPTH")) { E.max_depth = atoi(d); vp::cap("development override C20_DEPTH"); }
     if(const char *d = getenv("C20_NADDR")) { g_naddr = atoi(d); vp::cap("development override C20_NADDR"); }
-    vp::bound("ports", "/p i [0,127]; /q i [-10,10]; /r f [-1,1]");
+    vp::bound("ports", T ? "/p i [0,127]; /q i [-100,-10] (run 1) and [-10,10] (run 2); /r f [-1,1]" : "/p i [0,127]; /q i [-100,-10]; /r f [-1,1]");
     vp::bound("alphabet", "map(addr,coarse|fine); unMap(addr,coarse|fine); clear(); CC(id in {1,2,3}, v in {0,127}); deliver head of N2R; deliver head of R2N; "
                           "probe in every state: CC(id, v) for v = 0,1,64,126,127 in sequence for every id");
     vp::bound("addresses", (long long)g_naddr);
@@ -484,7 +501,14 @@ int main(int argc, char **argv)
     { bfs::Hist h; learn(h, 2, 0, 0, 1); learn(h, 2, 1, 1, 1); E.roots.push_back(h); }                      // /r coarse <- 1, fine <- 2
     { bfs::Hist h; learn(h, 0, 0, 0, 1); learn(h, 1, 0, 1, 0); learn(h, 2, 0, 2, 1); E.roots.push_back(h); } // /p <- 1, /q <- 2, /r <- 3
     { bfs::Hist h; learn(h, 0, 0, 0, 1); h.push_back(OP_MAP + 2); h.push_back(OP_MAP + 4); h.push_back(OP_DN2R); h.push_back(OP_DN2R); E.roots.push_back(h); } // /p <- 1; /q, /r queued and announced
-    vp::bound("roots", "initial state + 4 prepared states: {/p<-1}, {/r coarse<-1, fine<-2}, {/p<-1,/q<-2,/r<-3}, {/p<-1; /q and /r queued and announced}");
+    vp::bound("roots", "initial state + 5 prepared states: {/p<-1}, {/r coarse<-1, fine<-2}, {/p<-1,/q<-2,/r<-3}, {/p<-1; /q and /r queued and announced}, {/q coarse<-1, fine<-2}");
+    { bfs::Hist h; learn(h, 1, 0, 0, 1); learn(h, 1, 1, 1, 1); E.roots.push_back(h); }                      // /q coarse <- 1, fine <- 2 (14 bit on an integer range)
+    // the result files of the two engines must not collide
+    vp::Ctx &C = vp::ctx(); std::string keep_out = C.out;
+    if(!C.out.empty()) C.out = C.out.substr(0, C.out.size() - 5) + "_v" + std::string(1, variant) + ".json";
     E.run();
+    C.out = keep_out;
+    if(vp::replaying()) break;
+    }
     return vp::finish();
 }
